@@ -132,6 +132,74 @@ def check_stream(kind, p, X, mode="MT+", eps=0.0, veto=None, ylab=None, centre_a
     return out
 
 
+def check_wrapped_stream(kind, p, X, wrap, wp):
+    """monotonicity and size-bound clauses for the base module of DualVigilanceART / TopoART (the quantifier names
+    them): present X one row at a time through the wrapper and look at the base module's weights"""
+    import artlib
+    import contextlib, io
+    out = []
+    base = K.make(kind, p)
+    with contextlib.redirect_stdout(io.StringIO()):
+        top = (artlib.DualVigilanceART(base, rho_lower_bound=wp["lb"]) if wrap == "DV"
+               else artlib.TopoART(base, beta_lower=wp["beta_lower"], tau=wp["tau"], phi=wp["phi"]))
+    rho = float(p["rho"])
+    d = X.shape[1]
+    for i, x in enumerate(X):
+        Wb = [np.array(w, dtype=float).copy() for w in base.W] if hasattr(base, "W") else []
+        try:
+            with np.errstate(all="ignore"), contextlib.redirect_stdout(io.StringIO()):
+                top.partial_fit(x.reshape(1, -1))
+        except Exception:
+            return out
+        Wa = [np.array(w, dtype=float) for w in base.W]
+        if not all(np.all(np.isfinite(w)) for w in Wa):
+            return out
+        for j, (wb, wa) in enumerate(zip(Wb, Wa)):
+            if kind == "Fuzzy" and np.any(wa > wb + TOL):
+                out.append((f"{wrap}(Fuzzy)/monotone", f"weight of base category {j} increased", i))
+            elif kind == "ART1" and np.any(wa[d:] > wb[d:] + TOL):
+                out.append((f"{wrap}(ART1)/monotone", f"template of base category {j} increased", i))
+            elif kind in ("Hyper", "Ellip") and wa[-1] < wb[-1] - TOL:
+                out.append((f"{wrap}({kind})/radius-mono", f"radius of base category {j} decreased", i))
+        for j, wa in enumerate(Wa):
+            if kind == "Fuzzy" and np.sum(np.abs(wa)) < rho * (d // 2) - 1e-7:
+                out.append((f"{wrap}(Fuzzy)/size-bound", f"base category {j}: |w|={np.sum(np.abs(wa))} < rho*d={rho * (d // 2)}", i))
+            elif kind == "Hyper" and wa[-1] > float(p["r_hat"]) * (1 - rho) + 1e-7:
+                out.append((f"{wrap}(Hyper)/radius-bound", f"base category {j}: radius {wa[-1]} > r_hat(1-rho)", i))
+            elif kind == "Ellip" and wa[-1] > float(p["r_hat"]) * (1 - rho) / 2 + 1e-7:
+                out.append((f"{wrap}(Ellip)/radius-bound", f"base category {j}: radius {wa[-1]} > r_hat(1-rho)/2", i))
+        if out:
+            return out
+    return out
+
+
+def wrapped_oracle(rng, n):
+    fails, cnt = [], 0
+    for _ in range(n):
+        kind = rng.choice(["Fuzzy", "Fuzzy", "Hyper", "Ellip", "ART1"])
+        d = rng.choice([1, 2, 3])
+        p = K.gen_params(rng, kind, d)
+        if kind in ("Fuzzy", "Hyper", "Ellip") and p["rho"] == 0.0:
+            p["rho"] = rng.choice([0.3, 0.5, 0.6, 0.8])
+            if "alpha" in p and p["alpha"] == 0.0:
+                p["alpha"] = 1e-3
+        if kind == "ART1" and p["rho"] == 0.0:
+            p["rho"] = 0.5
+        wrap = rng.choice(["DV", "Topo"])
+        if wrap == "Topo" and kind == "ART1":
+            wrap = "DV"                      # TopoART needs a base module with a beta parameter
+        wp = {"lb": float(p["rho"]) * rng.choice([0.0, 0.25, 0.5, 0.75]), "beta_lower": float(p.get("beta", 1.0)) * rng.choice([0.5, 1.0]),
+              "tau": rng.choice([3, 5, 50]), "phi": rng.choice([1, 2])}
+        X = K.gen_data(rng, kind, rng.randrange(3, 16), d)
+        cnt += 1
+        for sig, text, i in check_wrapped_stream(kind, p, X, wrap, wp):
+            fails.append({"signature": sig, "text": text,
+                          "replay": {"kind": kind, "wrapper": wrap, "wrapper_params": wp,
+                                     "params": {k: (np.asarray(v).tolist() if isinstance(v, np.ndarray) else v) for k, v in p.items()},
+                                     "X": X.tolist(), "failing_sample": i}})
+    return fails, cnt
+
+
 def gen_stream(rng):
     kind = rng.choice(K.KINDS)
     d = rng.choice([1, 2, 3]) if kind in ("Bayes", "Quad") else rng.choice([1, 2, 3, 4])
@@ -191,8 +259,16 @@ def main():
             v.known(f["signature"], kf.get("text", f["signature"]))
         else:
             v.violation(dict(f["replay"], property="C02", signature=f["signature"], what=f["text"]))
+    wf, wn = wrapped_oracle(C.make_rng(seed, "C02-wrapped"), 200 if tier == "quick" else 2000)
+    for f in wf:
+        kf = C.match_known("C02", f["signature"])
+        if kf is not None:
+            v.known(f["signature"], kf.get("text", f["signature"]))
+        else:
+            v.violation(dict(f["replay"], property="C02", signature=f["signature"], what=f["text"]))
     v.cov["implementation_streams"] = sn
     v.cov["stream_kinds"] = kinds
+    v.cov["wrapped_base_module_streams"] = wn
     sys.exit(v.finish())
 
 
